@@ -1034,7 +1034,7 @@ func (em *emitter) emitUnaryOp(expr *ast.UnaryOperator, reg int8, regType reflec
 		em.fb.enterScope()
 		y := em.emitExpr(operand, operandType)
 		if canEmitDirectly(operandKind, regType.Kind()) {
-			em.fb.emitNeg(y, reg, regType.Kind())
+			em.fb.emitNeg(y, reg, operandKind)
 		} else {
 			z := em.fb.newRegister(operandKind)
 			em.fb.emitNeg(y, z, operandKind)
